@@ -50,7 +50,11 @@ def slices(tier):
             # carries and transfers a child to the sister species
             ("U4chainx2x3", [(sh, (None, None)) for sh in spaces.chain_shapes(4)[::3]], u3, [core[0]]),   # the two combs
             # every 4-leaf object on 3 species leaves, one family: speciations between lineages that each hold a transfer
-            ("U4x3x1", spaces.shape_pairs(4, 3, min_obj=4, min_sp=3), spaces.unordered_syntenies(1), [core[0], core[6]]),
+            ("U4x3x1", spaces.shape_pairs(4, 3, min_obj=4, min_sp=3), spaces.unordered_syntenies(1),
+             [core[0], core[6], (0, 1, 4, 1, 1)]),
+            # ... and on 4 species leaves with a transfer dearer than a duplication plus the losses of one lifted node, yet
+            # cheaper than the cascade of lifted ancestors it avoids
+            ("U4x4x1/dear-transfer", spaces.shape_pairs(4, 4, min_obj=4, min_sp=4), spaces.unordered_syntenies(1), [(0, 1, 6, 1, 1)]),
             # every 4-leaf object on 3 species leaves, each leaf holding ONE of two families, transfers at twice the unit price
             # and segmental losses at 1 and 2: a duplication whose charged child sits strictly below while the other child
             # stays in the species of the duplication, with a transfer scenario within one segmental loss of it
